@@ -325,7 +325,7 @@ def run_c(run, P):
     run.require_count(n >= 50 or run.fixture_mode, 'R-WIDTH(c): only %d stores of named constants into record fields found' % n)
 
 
-def run_d(run, P, units=('coap_pdu.c', 'coap_option.c')):
+def run_d(run, P, units=('coap_pdu.c', 'coap_option.c'), widths=(8, 16), min_src=0):
     """R-WIDTH (d): implicit narrowing at a call.  In the decoding units, an argument that the compiler converts to a NARROWER integer type
     for the parameter (implicit integral cast to 8 or 16 bits from a wider variable or field; arithmetic is declined) is only handed over when the
     interval analysis proves, on that path, that the value fits the parameter.  The per-option length limits live in functions that take
@@ -343,12 +343,12 @@ def run_d(run, P, units=('coap_pdu.c', 'coap_option.c')):
                 if not (isinstance(t, dict) and t.get('k') == 'call' and t.get('fn') and P.has(t['fn'])):
                     continue
                 for i, a in enumerate(t.get('a') or []):
-                    if isinstance(a, dict) and a.get('k') == 'cast' and not a.get('ex') and a.get('ck') == 'IntegralCast' and a.get('w') in (8, 16):
+                    if isinstance(a, dict) and a.get('k') == 'cast' and not a.get('ex') and a.get('ck') == 'IntegralCast' and a.get('w') in widths:
                         inner = a.get('e')
                         iw = strip(inner).get('w') if isinstance(strip(inner), dict) else None
                         # a plain variable / field only: differences (`number - max_opt`) are bounded by relations between their operands,
                         # which the interval domain does not carry -- they are declined here
-                        if const_int(inner) is None and iw and iw > a['w'] and ap(strip(inner)):
+                        if const_int(inner) is None and iw and iw > a['w'] and iw >= min_src and ap(strip(inner)):
                             cands.append((ev, t, i, a))
         if not cands:
             continue
